@@ -328,7 +328,11 @@ def classify(cname: str, g: dict, cpv: dict, facts: dict, rec) -> str | None:  #
         rec.count("reference_model_disagrees_with_cpython")
         return None
     rec.count("reference_model_agrees_with_cpython")
-    names = [n for n, _f in SWITCHES]
+    # only defects still listed as `known` can explain a discrepancy: the switch of a repaired defect stays off, so that
+    # the defect coming back (alone or combined with a known one) is reported as a violation
+    from vf.core.rec import known_findings
+
+    names = [n for n, f in SWITCHES if known_findings().get(f, {}).get("status") == "known"]
     for r in range(1, len(names) + 1):
         for combo in itertools.combinations(names, r):
             tg = set(combo)
